@@ -274,10 +274,11 @@ def parse_ac(q, status, body):
 def gen_filter(rnd, st, v=None):
     v = v if v is not None else rnd.choice([0, 3, 4, 14, 18, 22, 24, 32, 38, 39, 39, 39])
     provs = sorted(st['rp'])
-    f = {'op': 'rp_list', 'v': v, 'name': '', 'uuid': '', 'in_tree': '', 'member_of': [],
+    f = {'op': 'rp_list', 'v': v, 'name': '', 'has_name': False, 'uuid': '', 'in_tree': '', 'member_of': [],
          'forbidden_aggs': {}, 'required': [], 'forbidden': {}, 'resources': {}}
     if rnd.random() < 0.15:
-        f['name'] = rnd.choice(provs + ['p9']) if provs else 'p9'
+        f['name'] = rnd.choice(provs + ['p9', '']) if provs else 'p9'
+        f['has_name'] = True
     if rnd.random() < 0.15:
         f['uuid'] = rnd.choice(provs + ['p9']) if provs else 'p9'
     if v >= 14 and rnd.random() < 0.3:
@@ -324,7 +325,7 @@ def gen_filter(rnd, st, v=None):
 def render_filter(f):
     v = f['v']
     parts = []
-    if f['name']:
+    if f['has_name']:
         parts.append(('name', f['name']))
     if f['uuid']:
         parts.append(('uuid', U(f['uuid']) if f['uuid'] in names.NAME2UUID else names.NAME2UUID.get('p12')))
